@@ -28,7 +28,8 @@ class Timeout(Exception):
 
 
 class time_limit:
-    """SIGALRM based limit for calls into the implementation (main thread only)."""
+    """SIGALRM based limit for calls into the implementation (main thread only).
+    Blocks nest: leaving an inner block re-arms the outer block's alarm with its remaining time."""
 
     def __init__(self, seconds):
         self.seconds = seconds
@@ -37,12 +38,18 @@ class time_limit:
         raise Timeout()
 
     def __enter__(self):
+        self.t0 = time.time()
         self.old = signal.signal(signal.SIGALRM, self._handler)
-        signal.setitimer(signal.ITIMER_REAL, self.seconds)
+        self.outer_left = signal.getitimer(signal.ITIMER_REAL)[0]
+        limit = self.seconds if self.outer_left <= 0 else min(self.seconds, self.outer_left)
+        signal.setitimer(signal.ITIMER_REAL, limit)
 
     def __exit__(self, *exc):
         signal.setitimer(signal.ITIMER_REAL, 0)
         signal.signal(signal.SIGALRM, self.old)
+        if self.outer_left > 0:
+            left = self.outer_left - (time.time() - self.t0)
+            signal.setitimer(signal.ITIMER_REAL, max(left, 0.001))
         return False
 
 
